@@ -144,6 +144,34 @@ def run(tier, seed):
                 except Exception as ex:
                     ck.violation(f'{opname}({s!r}) on BeautifulSoup({mk!r}, {parser!r}) raised {type(ex).__name__}',
                                  {'pattern': s, 'op': opname, 'markup': mk, 'parser': parser, 'exception': type(ex).__name__})
+    # detached fragments (an extract()ed element, a tree made with new_tag): no document object above, whatever comes last
+    DET = ['<div id="d"><p>x</p><iframe></iframe></div>', '<div id="d"><p>x</p><iframe><html><body><p>in</p></body></html></iframe></div>',
+           '<form id="d"><input type="radio" name="a"><input type="submit"><span><iframe></iframe></span></form>',
+           '<form id="d"><input type="radio" name="a"><div><div><iframe><html><body><input type="radio" name="a" checked></body></html></iframe></div></div></form>',
+           '<ul id="d"><li>1</li><li>2<!-- c --></li></ul>', '<p id="d" lang="en" dir="auto">text<b></b></p>', '<div id="d"><textarea dir="auto"></textarea><input type="week" min="x"></div>',
+           '<div id="d"></div>', '<div id="d">only text</div>', '<section id="d"><iframe></iframe>tail</section>']
+    DSEL = ['*', ':root', 'p', ':-soup-contains(x)', ':-soup-contains-own(in)', ':indeterminate', ':default', ':empty', ':has(iframe)', 'iframe ~ *',
+            ':nth-child(1)', ':nth-last-child(1)', ':only-of-type', ':lang(en)', ':dir(ltr)', ':scope', ':not(p)', ':in-range', ':checked', 'div p, form input']
+    for mk in DET:
+        for parser in ('html.parser', 'lxml', 'html5lib'):
+            with warnings.catch_warnings():
+                warnings.simplefilter('ignore')
+                frag = BeautifulSoup(mk, parser).find(id='d')
+                if frag is None:
+                    continue
+                frag = frag.extract()
+                targets_ = [frag] + list(frag.find_all(True))[:4]
+                for s in DSEL:
+                    for tgt in targets_:
+                        for opname, fn in (('select', lambda: sv.select(s, tgt)), ('match', lambda: sv.match(s, tgt)),
+                                           ('closest', lambda: sv.closest(s, tgt)), ('filter', lambda: sv.filter(s, tgt))):
+                            try:
+                                fn()
+                                ck.count(('ok-detached', opname, parser))
+                            except Exception as ex:
+                                ck.violation(f'{opname}({s!r}) on a detached <{tgt.name}> of {mk!r} ({parser}) raised {type(ex).__name__}',
+                                             {'pattern': s, 'op': opname, 'markup': mk, 'parser': parser, 'detached': True,
+                                              'target': str(tgt)[:200], 'exception': type(ex).__name__})
     matchcheck.run_corr(ck, scs)
     return ck.finish(
         level='proof',
